@@ -215,7 +215,7 @@ def run_case(case):
     # the reader re-simplifies: judge ValueError only when the reference system is robustly feasible
     tight = ("and", [exact.le(t, -F(1, 1000) * (1 + abs(exact.fr(t[1])))) for t in ref_a + ref_g])
     opp_pairs = bool(set(case["pairs"]) & {"negated", "zero"})
-    robust = exact.feasible([tight]) if not opp_pairs else False
+    robust = exact.feasible([tight], None, exact.BOX) if not opp_pairs else False     # satisfiable inside the box of the numerical reading
     try:
         cs, rnames, raw = _file_roundtrip(con, case["cname"], machine)
         status = "ok"
